@@ -427,6 +427,19 @@ theorem row_group_local_block {α β : Type} (bw bh w : Nat) (encBlock : List α
    fun _ hk => ⟨_, encBlocks_eq_mul hbh hk encBlock⟩,
    fragments_of_groupLocal hbh _ _ (encBlocks_eq hbh encBlock)⟩
 
+/-- **what the per-block function sees.**  When `encode_block` reads the slice it is handed the way
+every BCn encoder does (`get_4x4_*`: `block[i * 4 + j] = data[i * row_pitch + j]`, `blockAt`), the
+bytes of an image (rows of `w` pixels) are: for every chunk of `bh` rows (a short last chunk
+completed with copies of its first row), for every block column left to right, the per-block
+function `g` of the `bw × bh` pixels of that block — a block cut by the right edge being completed
+by repeating the last pixel of each of its rows.  `g` arbitrary: a block's bytes depend on that
+block's pixels only, whatever the fragmentation. -/
+theorem block_encoder_sees_blocks {α β : Type} (bw bh w : Nat) (hbw : 0 < bw) (hbh : 0 < bh)
+    (g : List α → List β) (img : List (List α)) (hu : ∀ r ∈ img, r.length = w) :
+    encBlocks bw bh w (fun data pitch => g (blockAt bw bh data pitch)) img =
+      (chunks bh img).flatMap (fun grp => (groupBlocks bw w (padRows bh grp)).flatMap g) :=
+  encBlocks_blockAt hbw hbh g img hu
+
 /-- **not split ⇒ nothing to prove about the encoder**: a view without fragment height has one
 fragment, the image; fragment-wise = whole for ANY function `enc`, local or not. -/
 theorem fragmentwise_eq_whole_unsplit {ρ β : Type} (enc : List ρ → List β)
@@ -556,8 +569,7 @@ example : RowGroupLocal (fun (img : List Nat) => img) 4 :=
 /-! ### non-vacuity and edge cases of the family theorems -/
 
 /-- a block function that shows what it is given: the `bw × bh` pixels at the start of the slice -/
-def showBlock (bw bh : Nat) (data : List Nat) (pitch : Nat) : List Nat :=
-  (List.range bh).flatMap fun i => (data.drop (i * pitch)).take bw
+abbrev showBlock (bw bh : Nat) (data : List Nat) (pitch : Nat) : List Nat := blockAt bw bh data pitch
 
 /-- 3 x 3 image, 2 x 2 blocks: `h` not a multiple of `bh` (the last group is the last row followed
 by a copy of itself), `w` not a multiple of `bw` (partial blocks repeat the last pixel of each row) -/
@@ -584,6 +596,10 @@ example : rowsWrites (fun x : Nat => [x]) 3 [[1, 2], [3, 4], [5, 6], [7, 8]] =
 /-- 8x1 blocks, a row of 3 pixels: one block, padded with the last pixel -/
 example : processSubsample 8 (fun b : List Nat => [b.sum]) [1, 2, 3] = [1 + 2 + 3 * 6] := by
   simp [processSubsample, chunks]
+
+/-- the Bayer row index `block_y % 8` is periodic with period 8: fragments of 8k rows would do -/
+example (g : Nat → List Nat → List Nat) : ∀ y, (fun y => g (y % 8)) (y + 8) = (fun y => g (y % 8)) y := by
+  intro y; simp
 
 /-- (b) with the row index is NOT fragment-wise for a split height of 1 … -/
 example : ([[[0]], [[0]]].map (encSubsampleFrom 1 1 (fun y (_ : List Nat) => [y]) 0)).flatten ≠
